@@ -50,6 +50,7 @@ def _rect_task(m, K, slack_kind, tier="quick"):
         t.prove_paths("code_is_vertex_formula", paths,
                       lambda p: V.Bz(p.value) == vertex_formula if p.kind == "return" else False)
         t.frame_unchanged("frame:inputs-not-written", paths, [])
+        t.agree(paths)
         t.implicit()
     return _t
 
